@@ -42,7 +42,6 @@ def Err.className : Err → String
   | .differentDirs => "RuntimeError"
   | .docker => "DockerException"
   | .containerOther => "OtherContainerFailure"
-  | .decode => "UnicodeDecodeError"
   | .resultMissing => "FileNotFoundError"
   | .outDirMissing => "FileNotFoundError"
 
@@ -125,13 +124,10 @@ def SameDir (a : DatasetArgs) : Prop :=
 def Runnable (a : DatasetArgs) (q : QueryFacts) (fs : FsFacts) : Prop :=
   Valid a fs ∧ SameDir a ∧ q.translates = true
 
-def AllDecode (o : Outcome) : Prop := ∀ c ∈ o.chunks, c.decodes = true
-
 instance (a : DatasetArgs) (fs : FsFacts) : Decidable (Valid a fs) := by unfold Valid; exact inferInstance
 instance (a : DatasetArgs) : Decidable (SameDir a) := by unfold SameDir; exact inferInstance
 instance (a : DatasetArgs) (q : QueryFacts) (fs : FsFacts) : Decidable (Runnable a q fs) := by
   unfold Runnable; exact inferInstance
-instance (o : Outcome) : Decidable (AllDecode o) := by unfold AllDecode; exact inferInstance
 
 /-! ### the clauses -/
 
@@ -212,7 +208,7 @@ result. -/
 def FailurePropagates (o : Outcome) (ob : Obs) : Prop :=
   ob.calls ≠ [] → o.ending ≠ .success → ob.err.isSome = true ∧ ob.returned = [] ∧ ob.delivered = false
 
-/-- … and it is the container's own error that arrives (stated separately: needs decodable output) -/
+/-- … and it is the container's own error that arrives -/
 def FailureClass (o : Outcome) (ob : Obs) : Prop :=
   ob.calls ≠ [] → o.ending ≠ .success → ob.err = some o.ending.className
 
@@ -254,8 +250,7 @@ instance (a : DatasetArgs) (q : QueryFacts) (fs : FsFacts) (o : Outcome) (ob : O
     Decidable (ReturnsOnlyOnSuccess a q fs o ob) := by unfold ReturnsOnlyOnSuccess; exact inferInstance
 instance (ob : Obs) : Decidable (TempReleased ob) := by unfold TempReleased; exact inferInstance
 
-/-- All clauses with their names, for the driver's report (`SuccessReturns` is the full-strength
-clause: it is false of the code on undecodable output — `success_returns_counterexample`). -/
+/-- All clauses with their names, for the driver's report. -/
 def clauses (a : DatasetArgs) (q : QueryFacts) (fs : FsFacts) (o : Outcome) (ob : Obs) : List (String × Bool) :=
   [("validate_first", decide (ValidateFirst a fs ob)),
    ("filelist", decide (FileListOk a ob)),
@@ -263,7 +258,7 @@ def clauses (a : DatasetArgs) (q : QueryFacts) (fs : FsFacts) (o : Outcome) (ob 
    ("volumes", decide (VolumesOk a ob)),
    ("call", decide (CallOk a q fs ob)),
    ("failure_propagates", decide (FailurePropagates o ob)),
-   ("failure_class", decide (AllDecode o → FailureClass o ob)),
+   ("failure_class", decide (FailureClass o ob)),
    ("missing_result", decide (MissingResult o ob)),
    ("success_returns", decide (SuccessReturns a q fs o ob)),
    ("returns_only_on_success", decide (ReturnsOnlyOnSuccess a q fs o ob)),
@@ -272,7 +267,7 @@ def clauses (a : DatasetArgs) (q : QueryFacts) (fs : FsFacts) (o : Outcome) (ob 
 /-- The whole property on one observation. -/
 def Spec (a : DatasetArgs) (q : QueryFacts) (fs : FsFacts) (o : Outcome) (ob : Obs) : Prop :=
   ValidateFirst a fs ob ∧ FileListOk a ob ∧ ImageOk a q ob ∧ VolumesOk a ob ∧ CallOk a q fs ob ∧
-  FailurePropagates o ob ∧ (AllDecode o → FailureClass o ob) ∧ MissingResult o ob ∧
+  FailurePropagates o ob ∧ FailureClass o ob ∧ MissingResult o ob ∧
   SuccessReturns a q fs o ob ∧ ReturnsOnlyOnSuccess a q fs o ob ∧ TempReleased ob
 
 instance (a : DatasetArgs) (q : QueryFacts) (fs : FsFacts) (o : Outcome) (ob : Obs) : Decidable (Spec a q fs o ob) := by
